@@ -461,11 +461,18 @@ class _ReEnter(_Scope):
         metrics = st.get(self.mc, "_metrics")
         groups = list(g.get("$taskgroups", []))
         token = st.sym_ref("token_of_the_first_entering", "Token")
-        if st.fork("history", [("used-and-left", True), ("still-active(re-entered-from-inside)", True)]) == 0:
+        h = st.fork("history", [("used-and-left", True), ("still-active(re-entered-from-inside)", True),
+                                ("used-and-left-through-the-synchronous-protocol", True)])
+        if h == 0:
             st.put(metrics, "_finished", it.mk_bool(True))
             for tg in groups:
                 st.put(tg, "$tg_entered", it.mk_bool(True))
                 st.put(tg, "$tg_exited", it.mk_bool(True))
+        elif h == 2:
+            # `with scope:` ... later `async with scope:` - the first use never touched the task group (T-TG gives no refusal)
+            if self.disp is not None:
+                raise PathEnd("a scope with disposables cannot have been used synchronously")
+            st.put(metrics, "_finished", it.mk_bool(True))
         else:
             st.put(self.mc, "_token", token)
             for tg in groups:
